@@ -37,7 +37,8 @@ GDC_TEMPLATE = {
     "Matched_Norm_Sample_Barcode": "N1", "Mutation_Status": "Somatic",
     "Tumor_Sample_UUID": "3d1c5e50-3f51-4b6e-9f4b-0d0f6c8f1a11",
     "Matched_Norm_Sample_UUID": "3d1c5e50-3f51-4b6e-9f4b-0d0f6c8f1a12"}
-F2N = {"chrom": N_CHROM, "start": N_START, "end": N_END, "tumor": N_TUMOR, "normal": N_NORMAL}
+F2N = {"chrom": N_CHROM, "start": N_START, "end": N_END, "tumor": N_TUMOR, "normal": N_NORMAL,
+       "strand": "Strand", "vtype": "Variant_Type"}       # non-key columns a typed line may get wrong
 
 
 def typed_line(f):
